@@ -57,7 +57,7 @@ def main():
             wrap_untraced(ob.untrace)
             budget = float(os.environ.get('VERIF_BUDGET_S', ob.budget_s[tier]))
             r = xh.explore(ob.fn, budget_s=(20.0 if twin else budget), per_path_s=ob.per_path_s,
-                           shard=(k, n), shard_of=ob.shard_of, twin=twin, seed=ctx.SEED)
+                           shard=(k, n), shard_of=ob.shard_of, twin=twin, seed=ctx.SEED, native_body=ob.native_body)
             res.update(r)
         else:
             import inspect
